@@ -67,6 +67,9 @@ def run_scripts(env, scripts):
 def oracle(res):
     bad = [("escaped-exception", "exception escaped into the transport: " + e) for e in res["errors"]]
     bad += [("loop-exception", "exception reached the event loop: " + e) for e in res["loop_exceptions"]]
+    # library code raising inside the render task (not the resource's own render): run_driving_pipe turns it into a
+    # 5.00 or drops it, the registration dies of an accident
+    bad += [("C08:render-task-exception", e) for e in res.get("task_errors", [])]
     return bad + c08_oracle.check(res)
 
 
@@ -92,7 +95,7 @@ def run(env, rep):
         case = {"script": script}
         rep.count("script:" + tag.split(":")[0])
         for c in res["concrete"]:
-            rep.count("event:" + c[0])
+            rep.count("event:" + c.split("@")[0])
         for r in res["records"]:
             rep.count("record:" + r.split("/", 1)[1][0])
         rep.count("tasks:%d" % len([c for c in res["concrete"] if c.startswith("R@") and ":1:" in c]))
@@ -113,6 +116,11 @@ def run(env, rep):
             continue
         if res["same_tick_inputs"]:
             rep.count("discarded:same-tick-inputs")
+            continue
+        if res["fail_outside_task"]:
+            # sendmsg() failed for a datagram the message layer sent on its own (a retransmission, an empty ACK,
+            # the backlog going on): the shared message-layer model has no such input
+            rep.count("oracle-only:send-failed-outside-a-task-step")
             continue
         lines.append("C08 " + " ".join(res["args"]))
         cases.append(case)
